@@ -407,10 +407,98 @@ fn e2_history(srv: &Srv, cfg: &SrvCfg, order: &[u8], kill_by_error: bool, natura
     (viol, trace)
 }
 
+/// A single upload through the real Server that fails after j blocks (peer ERROR, or silence with timeout=1), onto a
+/// fresh name or — with --overwrite — onto an existing file.
+fn e2_abort(srv: &Srv, cfg: &SrvCfg, existing: bool, j: usize, silence: bool) -> (Vec<(String, String, serde_json::Map<String, Value>)>, String) {
+    let mut viol = vec![];
+    let name = format!("c13_abort_{}", std::process::id());
+    let path = format!("{}/{}", srv.recv_dir, name);
+    let _ = std::fs::remove_file(&path);
+    if existing {
+        std::fs::write(&path, content(3000, 8)).unwrap();
+    }
+    let body = content(2000, 9);
+    let desc = format!("upload onto {} name, {} after {j} block(s)", if existing { "an existing" } else { "a fresh" }, if silence { "peer silence (timeout=1)" } else { "peer ERROR" });
+    let mut c = Client::new(srv.addr);
+    let opts: Vec<(String, String)> = if silence { vec![("timeout".into(), "1".into())] } else { vec![] };
+    c.to_server(&rc::request(true, name.as_bytes(), &opts));
+    let first = c.recv_wait(BACKSTOP);
+    if !matches!(first.as_ref().map(|(b, _)| rc::decode(b)), Some(Ok(RPacket::Ack(0))) | Some(Ok(RPacket::Oack(_)))) {
+        viol.push(("e2-abort-not-accepted".into(), format!("{desc}: the WRQ was not accepted: {:?}", first.map(|(b, _)| rc::describe(&b))), facts(&[("existing", json!(existing))])));
+        quiesce();
+        let _ = std::fs::remove_file(&path);
+        return (viol, desc);
+    }
+    for k in 1..=j {
+        c.to_peer(&rc::data(k as u16, &body[(k - 1) * 512..k * 512]));
+        let _ = c.recv_wait(BACKSTOP);
+    }
+    if !silence {
+        c.to_peer(&rc::error(0, "abort"));
+    }
+    let t0 = std::time::Instant::now();
+    let limit = if silence { Duration::from_secs(19) } else { BACKSTOP };
+    while workers_alive() && t0.elapsed() < limit {
+        std::thread::sleep(Duration::from_millis(2));
+    }
+    if workers_alive() {
+        viol.push(("e2-abort-not-ended".into(), format!("{desc}: the transfer is still alive after {:?}", limit), facts(&[("existing", json!(existing))])));
+        c.to_peer_guarded(&rc::error(0, "end"));
+        quiesce();
+    }
+    let f = std::fs::read(&path).ok();
+    match (&f, cfg.keep) {
+        (Some(_), false) => viol.push(("K1-partial-not-removed".into(), format!("through the real server, {desc}: clean-on-error is in force but the partial file is still there"), facts(&[("existing", json!(existing)), ("panic", json!(false))]))),
+        (None, true) => viol.push(("K2-kept-file-missing".into(), format!("through the real server, {desc}: keep-on-error but the file was removed"), facts(&[("existing", json!(existing))]))),
+        (Some(b), true) => {
+            if !(b.len() <= j * 512 && body[..b.len()] == b[..]) {
+                viol.push(("K3-kept-not-prefix".into(), format!("through the real server, {desc}: the kept file ({} bytes) is not a prefix of the {} bytes sent", b.len(), j * 512), facts(&[("existing", json!(existing))])));
+            }
+        }
+        (None, false) => {}
+    }
+    let _ = std::fs::remove_file(&path);
+    (viol, desc)
+}
+
+pub fn e2_abort_cell(spec: &Value) -> Value {
+    let cfg = SrvCfg::from_json(&spec["srv"]);
+    let mut c = Counters::default();
+    let srv = match if cfg.single { server_fresh(&cfg) } else { server_for(&cfg) } {
+        Ok(s) => s,
+        Err(e) => return json!({"machinery_error": format!("server start: {e}")}),
+    };
+    let silence = spec["silence"].as_bool().unwrap_or(false);
+    let js: Vec<usize> = if silence { vec![1] } else { vec![0, 1, 2] };
+    for existing in [false, true] {
+        if existing && !cfg.overwrite {
+            continue;
+        }
+        for &j in &js {
+            let (viol, desc) = e2_abort(&srv, &cfg, existing, j, silence);
+            c.executions += 1;
+            c.states += 1;
+            c.transitions += j as u64 + 2;
+            c.nontrivial += 1;
+            c.trace_hashes.insert(fnv64(format!("{desc}{}", cfg.key()).as_bytes()));
+            if c.samples.is_empty() {
+                c.samples.push(json!({"srv": cfg.brief(), "real_server_abort": desc}));
+            }
+            for (clause, what, f) in viol {
+                c.violations.push(Violation { property: "C13".into(), clause, facts: f, what: format!("[{}] {}", cfg.brief(), what), replay: json!({"engine": "c13_e2_abort", "spec": spec}), weight: 60 + j as u64 });
+            }
+        }
+    }
+    if !quiesce() {
+        c.machinery_errors.push("server not quiescent at the end of a C13 abort cell".into());
+    }
+    c.to_json()
+}
+
 pub fn e2_cell(spec: &Value) -> Value {
     let cfg = SrvCfg::from_json(&spec["srv"]);
     let mut c = Counters::default();
-    let srv = match server_for(&cfg) {
+    let srv = match if cfg.single { server_fresh(&cfg) } else { server_for(&cfg) } {
         Ok(s) => s,
         Err(e) => return json!({"machinery_error": format!("server start: {e}")}),
     };
@@ -440,6 +528,46 @@ pub fn e2_cell(spec: &Value) -> Value {
 pub fn check(tier: Tier) -> Outcome {
     let p = ["C13"];
     let mut out = Outcome::new("C13", "fault_enumeration");
+    // the wall-clock histories through the real Server run concurrently with the simulated parts
+    // (3) E2
+    let mut cells_e = vec![];
+    for single in [false, true] {
+        for overwrite in [true, false] {
+            let mut s = SrvCfg::basic();
+            s.single = single;
+            s.overwrite = overwrite;
+            if single && overwrite {
+                // the stale transfer cannot be reached any more (its routing entry was replaced): it can only die of
+                // retry exhaustion, which takes 6 s of real time with timeout=1 — one such history per run
+                cells_e.push(json!({"srv": s.to_json(), "natural_death": true}));
+            } else {
+                cells_e.push(json!({"srv": s.to_json()}));
+                if overwrite && tier == Tier::Thorough {
+                    cells_e.push(json!({"srv": s.to_json(), "natural_death": true}));
+                }
+            }
+        }
+    }
+    let ne = cells_e.len();
+    let h_e2 = std::thread::spawn(move || run_cells("c13_e2", cells_e, &crate::pool_opts(tier)));
+    // (3b) single failing uploads through the real Server (its accept logic decides the clean flag and the target path)
+    let mut cells_ab = vec![];
+    for single in [false, true] {
+        for overwrite in [false, true] {
+            for keep in [false, true] {
+                let mut s = SrvCfg::basic();
+                s.single = single;
+                s.overwrite = overwrite;
+                s.keep = keep;
+                cells_ab.push(json!({"srv": s.to_json(), "silence": false}));
+                if overwrite && !keep {
+                    cells_ab.push(json!({"srv": s.to_json(), "silence": true}));
+                }
+            }
+        }
+    }
+    let nab = cells_ab.len();
+    let h_ab = std::thread::spawn(move || run_cells("c13_e2_abort", cells_ab, &crate::pool_opts(tier)));
     // (1) abort points x cause x {clean, keep}
     let mut cells_a = vec![];
     let mut cells_f = vec![];
@@ -458,8 +586,8 @@ pub fn check(tier: Tier) -> Outcome {
                     let mut b = x.clone();
                     b.silence_after = Some(k);
                     cells_a.push(cell_spec(&b, 0, 1_000_000, &p));
-                    if tier == Tier::Thorough {
-                        // one adversarial deviation before the abort
+                    if tier == Tier::Thorough || (n == 3 && ws <= 2) {
+                        // one adversarial deviation (duplicate, gap, stray, truncated datagram ...) before the abort
                         let mut a2 = a.clone();
                         a2.alpha = 0;
                         cells_a.push(cell_spec(&a2, 1, 1_000_000, &p));
@@ -501,29 +629,13 @@ pub fn check(tier: Tier) -> Outcome {
     let nt = cells_t.len();
     let res = run_cells("c13_two", cells_t, &crate::pool_opts(tier));
     out.absorb(res, nt);
-    // (3) E2
-    let mut cells_e = vec![];
-    for single in [false, true] {
-        for overwrite in [true, false] {
-            let mut s = SrvCfg::basic();
-            s.single = single;
-            s.overwrite = overwrite;
-            if single && overwrite {
-                // the stale transfer cannot be reached any more (its routing entry was replaced): it can only die of
-                // retry exhaustion, which takes 6 s of real time with timeout=1 — one such history per run
-                cells_e.push(json!({"srv": s.to_json(), "natural_death": true}));
-            } else {
-                cells_e.push(json!({"srv": s.to_json()}));
-                if overwrite && tier == Tier::Thorough {
-                    cells_e.push(json!({"srv": s.to_json(), "natural_death": true}));
-                }
-            }
-        }
+    if let Ok(res) = h_e2.join() {
+        out.absorb(res, ne);
     }
-    let ne = cells_e.len();
-    let res = run_cells("c13_e2", cells_e, &crate::pool_opts(tier));
-    out.absorb(res, ne);
-    out.rule = "(1) E1 Mode A, real receiving Worker: every abort point k = 0..n of uploads of n = 1..5 blocks x windowsize 1..3 x cause {peer ERROR at answer k, peer silence from answer k (6 timeouts), write error injected with RLIMIT_FSIZE at every block boundary and inside a block} x {clean-on-error, keep-on-error}; oracle on the tree after the worker thread has been joined: failed+clean => file absent, failed+keep => file is a prefix of the in-order payloads, completed => file intact. (2) two real Workers on one path (stale upload accepted first, then a fresh one that completes): all interleavings of the fresh worker's DATA steps with the stale worker's steps (0..2 DATA, then ERROR or six timeouts), clean and keep; oracle: from the fresh upload's completion on, at every observation point, the file exists and equals its content. (3) the same history through the real Server (retransmitted WRQ from one endpoint) in overwrite and no-overwrite mode, both port modes. non-trivial = executions with a distinct history.".into();
+    if let Ok(res) = h_ab.join() {
+        out.absorb(res, nab);
+    }
+    out.rule = "(1) E1 Mode A, real receiving Worker: every abort point k = 0..n of uploads of n = 1..5 blocks x windowsize 1..3 x cause {peer ERROR at answer k, peer silence from answer k (6 timeouts), write error injected with RLIMIT_FSIZE at every block boundary and inside a block} x {clean-on-error, keep-on-error}; oracle on the tree after the worker thread has been joined: failed+clean => file absent, failed+keep => file is a prefix of the in-order payloads, completed => file intact. (2) two real Workers on one path (stale upload accepted first, then a fresh one that completes): all interleavings of the fresh worker's DATA steps with the stale worker's steps (0..2 DATA, then ERROR or six timeouts), clean and keep; oracle: from the fresh upload's completion on, at every observation point, the file exists and equals its content. (3) the same history through the real Server (retransmitted WRQ from one endpoint) in overwrite and no-overwrite mode, both port modes; (3b) single uploads through the real Server that fail after j = 0..2 blocks by peer ERROR (and by silence with timeout=1), onto a fresh name and onto an existing file (--overwrite), x {clean, keep} x port modes. non-trivial = executions with a distinct history.".into();
     out.assumptions = vec![
         "the check-then-create window between file.exists() in the listener and File::create in the freshly spawned worker is not scheduled by the harness (each worker has created the file before the next starts)".into(),
         "both uploads of a name carry the same content (a retransmitted request), so only clean-up, not concurrent writing, can alter the file".into(),
